@@ -49,7 +49,21 @@ type boxWrite struct {
 }
 
 type boxMonFlags struct {
-	c01, c02, c03, c06, c07, c11 bool
+	c01, c02, c03, c06, c07, c11, c18 bool
+}
+
+// boxResourcesKey: the resources a pool configuration is computed from, independent of listing order.
+func boxResourcesKey(d *boxDelivered) string {
+	var ps, ns []string
+	for _, p := range d.Pools {
+		ps = append(ps, p.Name+"="+vfJSON(p.Spec)+vfJSON(p.Labels))
+	}
+	for _, n := range d.Nss {
+		ns = append(ns, n.Name+"="+vfJSON(n.Labels))
+	}
+	sort.Strings(ps)
+	sort.Strings(ns)
+	return fmt.Sprint(ps, ns)
 }
 
 // cbox is the controller box: kernel + the current controller instance + monitor state.
@@ -196,6 +210,16 @@ func (cb *cbox) boot(k *boxKernel) {
 			k.Yield("pool", "before-handler")
 			d := &boxDelivered{Pools: cb.seenPools, Nss: cb.seenNss}
 			d.Model = vfModelPools(d.Pools, d.Nss)
+			if cb.mon.c18 {
+				// C18: the handler must not be called again for resources that did not change
+				cb.c.Eval()
+				cb.c.Count("config-deliveries")
+				if cb.cur != nil && boxResourcesKey(cb.cur) == boxResourcesKey(d) {
+					cb.c.Violation("handler-recalled:PoolReconciler:unchanged-resources", fmt.Sprintf("SetPools was called again although pools and namespaces are unchanged since the previous call (%s): an unrelated event looked like a configuration change and re-syncs every Service", vfPoolDump(d.Pools)), nil)
+				} else if cb.cur != nil {
+					cb.c.Nontrivial(boxResourcesKey(d))
+				}
+			}
 			res := lis.PoolHandler(l, pools)
 			cb.delivered = append(cb.delivered, d)
 			cb.cur = d
